@@ -368,6 +368,10 @@ impl C06 {
                     argv.push("-r".into());
                     argv.push("@/rules/no_such_rules.guard".into());
                     missing.push("rules/no_such_rules.guard".into());
+                } else if r.chance(1, 12) {
+                    argv.push("-i".into());
+                    argv.push("@/params/no_such_params.json".into());
+                    missing.push("params/no_such_params.json".into());
                 }
                 for d in dlist {
                     argv.push("-d".into());
@@ -391,10 +395,17 @@ impl C06 {
                     continue;
                 }
                 let text = |rel: &String| String::from_utf8_lossy(&scn.files.iter().find(|f| &f.rel == rel).unwrap().bytes).into_owned();
-                let payload = serde_json::to_vec(&json!({"rules": pr.iter().map(|i| text(&scn.rules[*i])).collect::<Vec<_>>(), "data": pd.iter().map(|i| text(&scn.data[*i])).collect::<Vec<_>>()})).unwrap();
+                let mut payload = serde_json::to_vec(&json!({"rules": pr.iter().map(|i| text(&scn.rules[*i])).collect::<Vec<_>>(), "data": pd.iter().map(|i| text(&scn.data[*i])).collect::<Vec<_>>()})).unwrap();
+                let mut missing = vec![];
+                if r.chance(1, 8) {
+                    // a torn payload: malformed input must be an error exit
+                    let k = r.usize(payload.len());
+                    payload.truncate(k);
+                    missing.push("<torn payload>".to_string());
+                }
                 let mut argv = sv(&["cfn-guard", "validate", "--payload"]);
                 argv.extend(tail);
-                out.push(Dlv { kind: format!("payload-{fmt}"), argv, stdin: Some("@/dlv/payload.json".into()), dir_mode: "asc".into(), dir_seed: 1, faults, extra: vec![FileSpec { rel: "dlv/payload.json".into(), bytes: payload, mtime_ns: 0 }], missing: vec![], rules_idx: pr, data_idx: pd });
+                out.push(Dlv { kind: format!("payload-{fmt}"), argv, stdin: Some("@/dlv/payload.json".into()), dir_mode: "asc".into(), dir_seed: 1, faults, extra: vec![FileSpec { rel: "dlv/payload.json".into(), bytes: payload, mtime_ns: 0 }], missing, rules_idx: pr, data_idx: pd });
             } else {
                 // data on stdin, one rules file or all
                 let di = r.usize(nd);
